@@ -105,3 +105,12 @@ Definition known_C17_py_text (t : table_def) : bool :=
    default is wrapped in text("...") — before the fix `text` was then used without being imported *)
 Definition known_C17_py_sqlmodel_text (t : table_def) : bool :=
   (negb (has_server_default t) && sqlmodel_needs_text t)%bool.
+
+(* class of the finding C17-py-sqlmodel-float-word: SQLModel's render_column pastes every default that
+   str::parse::<f64> accepts as `default=<text>` (sqlmodel/mod.rs:407-408); Rust also accepts the words
+   inf / infinity / nan (any case, optional sign), which are not Python literals but undefined NAMES *)
+Definition py_float_word (s : string) : bool :=
+  let l := map_string to_lower_ascii_char (strip_sign s) in
+  (String.eqb l "inf" || String.eqb l "infinity" || String.eqb l "nan")%bool.
+Definition known_C17_py_sqlmodel_float_word (t : table_def) : bool :=
+  existsb (fun c => match c_default c with Some d => py_float_word (default_to_sql d) | None => false end) (t_columns t).
